@@ -119,7 +119,11 @@ def _run_controls(pid: str, world: World, mod) -> tuple[int, list[str]]:
     from .normalise import normalise
 
     # controls edit the tree the rules see (helpers inlined, methods of new intermediate classes copied down)
-    world = normalise(world)
+    try:
+        world = normalise(world)
+    except (Incomplete, AnalysisError) as exc:
+        _run_controls.skipped = [f'all controls: the tree cannot be normalised: {exc}']  # type: ignore[attr-defined]
+        return 0, []
     controls: list[Control] = mod.controls(world) if hasattr(mod, 'controls') else []
     failures = []
     skipped: list[str] = []
